@@ -1,5 +1,6 @@
 import Fabio.Driver.Proto
 import Fabio.Model.C06
+import Fabio.Model.C06Access
 /-!
 Driver handlers for C06.
 
@@ -170,6 +171,79 @@ def rdH : Handler := fun inp impl => do
   return ({ model := model, agree := agree, spec := spec,
             nontrivial := decide (n ≥ 2) && (decide (hosts ≥ 2) || decide (paths ≥ 2)), tag := tag } : Verdict).toJson
 
+/-! ### access decisions (`c06.access`, and the classes of `c06.access-race`)
+
+The harness ships the numeric forms of its address and block pools; rules and requests refer to them by index.
+The decision is `Model.C06.accessDenied` (the closed form of `Target.AccessDeniedHTTP`; the interleaving theorem
+`Props.C06Access.access_decision_any_schedule` says every request observes exactly this under any schedule). -/
+
+def addrOf (j : Json) : Option Addr :=
+  let bits := getNatD j "bits"
+  if bits == 0 then none else some { bits := bits, val := getNatD j "val" }
+
+def blockOf (j : Json) : Block := { bits := getNatD j "bits", val := getNatD j "val", plen := getNatD j "plen" }
+
+def jsonArr (j : Json) (k : String) : Array Json := ((j.getObjVal? k).toOption.bind (fun a => a.getArr?.toOption)).getD #[]
+
+structure AccPools where
+  blocks : Array Block
+  addrs : Array (Option Addr)
+
+def poolsOf (j : Json) : AccPools :=
+  { blocks := (jsonArr j "blocks").map blockOf, addrs := (jsonArr j "addrs").map addrOf }
+
+/-- rule kinds of the harness: 0 none, 1 allow, 2 deny, 3 allow and deny together, 4/5 a list with an item that
+does not parse — the last three deny everybody (`denyAll`: an allow list without blocks) -/
+def rulesOf (p : AccPools) (j : Json) : Rules :=
+  let bs := (getNats j "blocks").map (fun i => p.blocks.getD i ⟨0, 0, 0⟩)
+  match getNatD j "kind" with
+  | 0 => .none
+  | 1 => .allow bs
+  | 2 => .deny bs
+  | _ => .allow []
+
+def accReqOf (p : AccPools) (j : Json) : AccReq :=
+  let remote := getNatD j "remote"
+  { remote := (p.addrs.getD remote none), noport := getBoolD j "noport",
+    xff := (getNats j "xff").map (fun i => (i == remote, p.addrs.getD i none)) }
+
+def rulesClass (j : Json) : String :=
+  match getNatD j "kind" with
+  | 0 => "none" | 1 => "allow" | 2 => "deny" | 3 => "allow+deny" | _ => "unparsable-rule"
+
+def accH : Handler := fun inp impl => do
+  let ci := canonImpl impl
+  let pools := poolsOf ((ci.getObjVal? "pools").toOption.getD Json.null)
+  let rj := (inp.getObjVal? "rules").toOption.getD Json.null
+  let rules := rulesOf pools rj
+  let reqs := (jsonArr inp "reqs").toList
+  let answers := (jsonArr ci "answers").toList
+  let want := reqs.map (fun q => if accessDenied rules (accReqOf pools q) then 403 else 301)
+  let got := answers.map (fun a => getNatD a "code")
+  let model := Json.mkObj [("codes", natsJson want)]
+  let agree := ci != panicJson && got == want
+  let isolated := answers.length == reqs.length && answers.all (fun a => getNatD a "code" == getNatD a "alone_code")
+  let spec := isolated && agree
+  let hasXff := reqs.any (fun q => !(getNats q "xff").isEmpty)
+  let odd := reqs.any (fun q => getBoolD q "noport" || (accReqOf pools q).remote.isNone)
+  let cls := rulesClass rj ++ (if hasXff then "+xff" else "") ++ (if odd then "+bad-remote" else "")
+  let tag := if ci == panicJson then "panic:" ++ cls else if !isolated then "cross-request:" ++ cls
+    else if !agree then "decision:" ++ cls else cls
+  return ({ model := model, agree := agree, spec := spec,
+            nontrivial := decide (reqs.length ≥ 2) && getNatD rj "kind" != 0, tag := tag } : Verdict).toJson
+
+/-- the classes of the stress scenario: every request of a class must have got the decision of the model -/
+def accessClassesOK (acc : Json) : Bool :=
+  let pools := poolsOf ((acc.getObjVal? "pools").toOption.getD Json.null)
+  let rules := (jsonArr acc "rules").map (rulesOf pools)
+  let clients := (jsonArr acc "clients").map (accReqOf pools)
+  (jsonArr acc "classes").all (fun c =>
+    let n := getNatD c "n"
+    let deny := accessDenied (rules.getD (getNatD c "route") .none) (clients.getD (getNatD c "client") { remote := none })
+    getNatD c "other" == 0 && getNatD c "denied" == (if deny then n else 0))
+
+def accessRequests (acc : Json) : Nat := ((jsonArr acc "classes").toList.map (fun c => getNatD c "n")).sum
+
 /-! ### race streams -/
 
 structure RouteObs where
@@ -178,10 +252,11 @@ structure RouteObs where
   ring : List Nat
   counts : List Nat
   rnd : Bool
+  ringChanged : Bool
 
 def routeObsOf (j : Json) : RouteObs :=
   { k := getNatD j "k", cursor := getNatD j "cursor", ring := getNats j "ring", counts := getNats j "counts",
-    rnd := (j.getObjValAs? String "picker").toOption == some "rnd" }
+    rnd := (j.getObjValAs? String "picker").toOption == some "rnd", ringChanged := getBoolD j "ring_changed" }
 
 /-- exact share of every target after `k` lookups from cursor 0 (`rr_target_share_any_schedule`; evaluated
 cycle-wise, equal to `targetShare` by `targetShareFast_eq`) -/
@@ -210,23 +285,34 @@ def stressH : Handler := fun _inp impl => do
   let cache := (impl.getObjVal? "cache").toOption.getD Json.null
   let cacheOK := getNatD cache "entries" ≤ getNatD cache "size" && getNatD cache "n" ≤ getNatD cache "size" &&
     getNatD cache "h" < max (getNatD cache "n") 1 && getNatD cache "l" == getNatD cache "size"
-  let accounted := (routes.map (·.k)).sum
+  -- the ring and the target list of a published table are what they were when it was built
+  -- (`published_table_any_schedule`: nothing that runs on a published table writes to it)
+  let ringOK := routes.all (fun r => !r.ringChanged)
+  let access := (impl.getObjVal? "access").toOption
+  let accessOK := match access with
+    | some a => accessClassesOK a
+    | none => true
+  let accounted := (routes.map (·.k)).sum + (match access with | some a => accessRequests a | none => 0)
   let model := Json.mkObj [("crashed", false), ("race", false), ("panics", (0 : Nat)), ("mismatch", (0 : Nat)),
     ("routes", Json.arr (routes.map (fun r => if r.rnd then Json.str "any ring slot" else natsJson (expectedCounts r))).toArray),
-    ("cache_ok", true)]
-  let agree := !crashed && panics == 0 && mismatch == 0 && shareOK && cacheOK
+    ("cache_ok", true), ("ring_unchanged", true), ("access_ok", true)]
+  let agree := !crashed && panics == 0 && mismatch == 0 && ringOK && shareOK && cacheOK && accessOK
   let spec := agree && !race
   let tag := if crashed then "crash" else if panics > 0 then "panic" else if mismatch > 0 then
       (if routes.isEmpty then "location-crosstalk" else "wrong-target")
-    else if !shareOK then "lost-share" else if !cacheOK then "cache-overflow" else if race then "data-race"
-    else if !raceEnabled then "no-race-detector" else if routes.isEmpty then "ok-redirect"
-    else if routes.any (·.rnd) then "ok-rnd" else "ok"
+    else if !ringOK then "ring-mutated"
+    else if !shareOK then "lost-share" else if !cacheOK then "cache-overflow"
+    else if !accessOK then "access-crosstalk" else if race then "data-race"
+    else if !raceEnabled then "no-race-detector"
+    else (if access.isSome then "ok-access" else if routes.isEmpty then "ok-redirect"
+          else if routes.any (·.rnd) then "ok-rnd" else "ok") ++ (if getNatD impl "reads" > 0 then "+readers" else "")
   return ({ model := model, agree := agree, spec := spec,
-            nontrivial := raceEnabled && decide (lookups ≥ 1000) && (routes.isEmpty || decide (accounted ≥ 1000)),
+            nontrivial := raceEnabled && decide (lookups ≥ 1000) &&
+              ((routes.isEmpty && access.isNone) || decide (accounted ≥ 1000)),
             tag := tag } : Verdict).toJson
 
 def streams : List (String × Handler) :=
   [("c06.globcache", gcH), ("c06.rr", rrH), ("c06.redirect", rdH),
    ("c06.rr-race", stressH), ("c06.glob-race", stressH), ("c06.redirect-race", stressH), ("c06.mixed-race", stressH),
-   ("c06.rnd-race", stressH)]
+   ("c06.rnd-race", stressH), ("c06.access", accH), ("c06.access-race", stressH)]
 end Fabio.Driver.C06
